@@ -745,6 +745,19 @@ func genC06(prop, tier string, r *rand.Rand) *Scn {
 	stop := r.IntN(4) == 0 // positional correspondence holds in either error mode
 	n := g.rootBatch(batchSize(r, 64), budget, pick(r, []int{0, 0, 10}), conc, stop, []string{"results", "anys", "ints", "strings", "single", "nil"})
 	g.timing(n)
+	if r.IntN(7) == 0 && len(n.Visits[0].Items) > 0 {
+		// post must wait for every item also when the run is cancelled meanwhile
+		g.sc.Ctx.Kind = "cancel"
+		if r.IntN(2) == 0 {
+			g.sc.Canceller = &Canceller{Kind: "ticket"}
+		} else {
+			vs := &n.Visits[0]
+			i := r.IntN(len(vs.Items))
+			o := g.sc.outcomeAt(MEv{Kind: "exec_start", N: n.ID, V: 0, A: 1, I: i + 1})
+			o.Cancel = true
+		}
+		return g.sc
+	}
 	g.secondRun(n, budget, n.style(1) == 'R' && !stop)
 	return g.sc
 }
@@ -784,7 +797,14 @@ func genC08(prop, tier string, r *rand.Rand) *Scn {
 	if r.IntN(3) == 0 {
 		ni = r.IntN(conc + 3)
 	}
-	n := g.rootBatch(ni, 1+r.IntN(2), 0, conc, false, nil)
+	// the limit is a property of the pool, not of the error mode: a third of the
+	// batches run in stop-on-error mode (without failing items, so that every
+	// gated item can start)
+	stop := r.IntN(3) == 0
+	if stop {
+		g.failP = 0
+	}
+	n := g.rootBatch(ni, 1+r.IntN(2), 0, conc, stop, nil)
 	g.timing(n)
 	switch r.IntN(4) {
 	case 0:
